@@ -255,6 +255,15 @@ func (x *planExec) checkC07(op *Op, res *OpResult, meta *C07Meta, method string)
 		if missing != "" {
 			x.violate("C07", "value-missing", op.ID, key("value-missing"), "after step %d (%s): %s", i+1, kind, missing)
 		}
+		// a criterion the step reports as omitted has disappeared: no alternative still carries a value for it
+		for _, a := range nxt.all() {
+			for _, o := range ri.omitted {
+				if _, still := a.Criteria[o]; still {
+					x.violate("C07", "omitted-criterion-still-valued", op.ID, key("omitted-criterion-still-valued"),
+						"step %d (%s) reports criterion %q as omitted, but alternative %q handed to the next stage still has a value for it", i+1, kind, o, a.Id)
+				}
+			}
+		}
 		// invariant 5: values not deliberately rewritten persist
 		applyNotCons := false
 		if kind == "anchoring-inline" {
